@@ -108,7 +108,10 @@ def setup():
         elif ins['i'] == 'param':
           CTL.event('param')
           CTL.cur_path = tuple(self.path)
-          ps.append(self.param(ins['name'], int_init(ins['kind']), pshape(ins['kind'])))
+          init = int_init(ins['kind'])
+          if ins.get('part'):
+            init = nn.with_partitioning(init, tuple(ins['part']))
+          ps.append(self.param(ins['name'], init, pshape(ins['kind'])))
           decl[n] = ('param', len(ps) - 1)
         elif ins['i'] == 'var':
           CTL.event('var')
@@ -175,7 +178,10 @@ def run_body(mod, sp, x, decl):
       if compact:
         CTL.event('param')
         CTL.cur_path = tuple(mod.path)
-        w = mod.param(ins['name'], int_init(ins['kind']), pshape(ins['kind']))
+        init = int_init(ins['kind'])
+        if ins.get('part'):
+          init = nn.with_partitioning(init, tuple(ins['part']))
+        w = mod.param(ins['name'], init, pshape(ins['kind']))
       else:
         w = mod.ps[decl[str(n)][1]]
       x = apply_param(x, w, ins['kind'])
